@@ -102,7 +102,6 @@ fn main() {
     if r.tier == Tier::Quick {
         consts!(r, d8, 5, BigRef);
         consts!(r, d16, 12, BigRef);
-        consts!(r, d32, 10, BigRef);
         consts!(r, d64, 128, BigRef);
     }
     consts::aliases_check(r);
